@@ -124,7 +124,8 @@ def metadataKv : Parser Metadata :=
 /-- `metadata::line_metadata` -/
 def lineMetadata : Parser Metadata :=
   delimited (pair (char ';') space0)
-    (metadataTags <|| metadataKv <|| map (fun s => Metadata.comment (String.ofList (trimEnd s))) tillLineEnding)
+    -- tags must occupy the whole line, otherwise the line is a comment
+    (terminated metadataTags (peek lineEndingOrEof) <|| metadataKv <|| map (fun s => Metadata.comment (String.ofList (trimEnd s))) tillLineEnding)
     lineEndingOrEof
 
 /-- `metadata::block_metadata` -/
@@ -175,7 +176,7 @@ def lotLoop : Nat → Lot → Parser Lot
       else .bt i
     | '(' :: _ =>
       if lot.note.isNone then
-        (paren (takeTill1 fun c => c == '(' || c == ')' || c == '@') >>- fun s => space0 >>- fun _ =>
+        (paren (takeTill0 fun c => c == '(' || c == ')' || c == '@') >>- fun s => space0 >>- fun _ =>
           lotLoop n { lot with note := some (String.ofList s) }) i
       else .bt i
     | _ => .ok lot i
@@ -216,7 +217,8 @@ def posting : Parser Posting :=
 def transaction : Parser Transaction :=
   date >>- fun d =>
   opt (preceded (char '=') date) >>- fun ed =>
-  hasPeek lineEndingOrEof >>- fun isShortest =>
+  -- metadata can directly follow the date as well
+  hasPeek (lineEndingOrEof <|| void (char ';')) >>- fun isShortest =>
   cond (!isShortest) space1 >>- fun _ =>
   clearState >>- fun cs =>
   opt (terminated parenStr space0) >>- fun code =>
